@@ -20,11 +20,11 @@ func (d *DotGit) setRef(fileName, content string, old *plumbing.Reference) (err 
 }
 
 func (d *DotGit) setRefRwfs(fileName, content string, old *plumbing.Reference) (err error) {
-	// If we are not checking an old ref, just truncate the file.
+	// The file is emptied only once its lock is held (see
+	// checkReferenceAndTruncate): truncating at open time would let this
+	// writer wipe, and then write a shorter value over the head of, a value
+	// another writer stores between our open and our lock.
 	mode := os.O_RDWR | os.O_CREATE
-	if old == nil {
-		mode |= os.O_TRUNC
-	}
 
 	if old != nil {
 		// Without a loose file the current value lives in packed-refs
